@@ -268,6 +268,19 @@ Example C13_postfinance_statement_wf :
     Some ([[s_waehr; [61;34;69;85;82;34]]], [[66]], [row], [[68]], [[[69]]])%Z.
 Proof. vm_compute. split; reflexivity. Qed.
 
+(* viac: the decoded dailyWealth entries well-formed, --from (if given) a date; one price per entry
+   that is not before that day and whose value is not zero *)
+Theorem C13_viac_stdout : forall flag from l,
+  valid_name flag = true -> viac_statement_wf from l = true ->
+  exists out, viac_statement_output flag from l = Some out /\ run_viac flag from (VValues l) = mkRun out SOk.
+Proof. exact viac_stdout. Qed.
+Print Assumptions C13_viac_stdout.
+
+Example C13_viac_statement_wf :
+  viac_statement_wf (Some [50;48;49;56;45;48;54;45;50;48]%Z)
+                    [([50;48;49;56;45;48;54;45;50;48]%Z, [54;55;54;56;46;53;53;54]%Z)] = true.
+Proof. vm_compute. reflexivity. Qed.
+
 (* swisscard: the importer's one-pass replacer = remove every "CHF", then every "'" *)
 Theorem C13_swisscard_amount_text : forall s, sc_clean s = sc_amount_text s.
 Proof. exact sc_clean_spec. Qed.
